@@ -10,7 +10,13 @@ for d in seeded/*/; do
 done
 for m in mutants/*.diff; do
   n=$(basename $m .diff); p=${n:0:3}
-  case $p in C[0-2][0-9]) ;; *) echo "skip    $n (no property prefix)"; continue;; esac
+  case $n in
+    nosync) p=C01;; commitidx_before_sync) p=C06;; decode_nocopy|codec_hardcoded) p=C12;; no_maxentry_guard) p=C11;;
+    crc_skip_header) p=C09;; verifier_hash_no_term) p=C17;; verifier_blocking_send) p=C18;; verifier_no_reset_on_truncate) p=C16;;
+    fs_delete_no_syncdir|fs_create_new_flag|fs_create_no_excl|metadb_no_dirsync|fs_openwriter_bare) p=C07;;
+    state_before_commit) echo "skip    $n (judged equivalent under the listed properties, DESIGN 13)"; continue;;
+  esac
+  case $p in C[0-2][0-9]) ;; *) echo "skip    $n (no property)"; continue;; esac
   r=$(timeout 1200 scripts/mutant.sh $m $p $B 2>&1)
   if echo "$r" | grep -q "^VIOLATION"; then echo "caught  $n $p $(echo "$r" | grep -m1 '^  C' | cut -c3-110)"; else echo "MISSED  $n $p $(echo "$r" | tail -2 | tr '\n' ' ' | cut -c1-150)"; fi
 done
